@@ -38,6 +38,9 @@ impl Cache {
             .unwrap()
             .as_secs();
 
+        #[cfg(humphrey_verif)]
+        let time = verif::clock().unwrap_or(time);
+
         let index = self
             .data
             .iter()
@@ -84,6 +87,55 @@ impl Cache {
                 .unwrap()
                 .as_secs(),
         });
+
+        #[cfg(humphrey_verif)]
+        if let (Some(time), Some(item)) = (verif::clock(), self.data.back_mut()) {
+            item.cache_time = time;
+        }
+    }
+}
+
+/// Verification hooks, compiled only with `--cfg humphrey_verif`: a thread-local override of the clock that
+///   `get` and `set` read, and read-only access to the cache's private bookkeeping.
+#[cfg(humphrey_verif)]
+pub mod verif {
+    use std::cell::Cell;
+
+    thread_local! {
+        static CLOCK: Cell<Option<u64>> = Cell::new(None);
+    }
+
+    /// Sets (or clears) the time in seconds that cache operations on this thread observe.
+    pub fn set_clock(time: Option<u64>) {
+        CLOCK.with(|clock| clock.set(time));
+    }
+
+    /// Returns the overridden time of this thread, if any.
+    pub fn clock() -> Option<u64> {
+        CLOCK.with(|clock| clock.get())
+    }
+}
+
+#[cfg(humphrey_verif)]
+impl Cache {
+    /// Creates a cache with the given limits.
+    pub fn verif_new(cache_limit: usize, cache_time_limit: u64) -> Self {
+        Self {
+            cache_limit,
+            cache_time_limit,
+            cache_size: 0,
+            data: VecDeque::new(),
+        }
+    }
+
+    /// Returns the tracked size of the cache.
+    pub fn verif_size(&self) -> usize {
+        self.cache_size
+    }
+
+    /// Returns the entries of the cache from front to back.
+    pub fn verif_entries(&self) -> impl Iterator<Item = &CachedItem> {
+        self.data.iter()
     }
 }
 
